@@ -31,6 +31,11 @@ def stepOp (d : D) : List String → Option (D × String)
   | ["t", u] => do pure ({ d with now := ← u.toNat? }, "-")
   | ["w", h] => do pure ({ d with s := write d.s d.now (← unhex h) }, "ok")
   | ["mw", h] => do pure ({ d with s := write d.s d.now (← unhex h) }, "ok")
+  -- a writer taken and kept alive by another thread / a make_writer that may have to wait for it / its release:
+  -- the writes happen, in this order, each at the time of its `make_writer`
+  | ["hold", h] => do pure ({ d with s := write d.s d.now (← unhex h) }, "ok")
+  | ["mwb", h] => do pure ({ d with s := write d.s d.now (← unhex h) }, "ok")
+  | ["rel"] => some (d, "ok")
   | ["par", n] => do pure ({ d with s := parallel d.s d.now (← n.toNat?), sortLines := true }, "ok")
   | ["ls"] => some (d, listing d.s d.sortLines)
   | _ => none
